@@ -85,3 +85,13 @@ def sample_of(req, obs, script):
         "trace": ["%s%s" % (e1.cp_key(c), "" if c["answer"] == "ok" else "=" + c["answer"]) for c in obs.get("cps", [])][:40],
         "outcome": outcome_class(obs),
     }
+
+
+def account_divergences(res, st):
+    """Replay divergences are machinery errors, unless the same run found violations (a defect that shows
+    only sometimes, e.g. a rare signature shape, makes prefixes diverge)."""
+    if st.get("divergences"):
+        res.extra.setdefault("replay_divergences", 0)
+        res.extra["replay_divergences"] += len(st["divergences"])
+        if not res.violations:
+            res.machinery_errors.append(st["divergences"][0])
